@@ -343,7 +343,8 @@ def random_strategy():
     from hypothesis import strategies as st
 
     leaf = st.one_of(st.sampled_from([("v", "x"), ("v", "y"), ("v", "z")]),
-                     st.integers(-3, 3).map(lambda c: ("c", c)))
+                     st.integers(-3, 3).map(lambda c: ("c", c)),
+                     st.sampled_from([2 ** 53, 2 ** 53 + 1, 2 ** 63 - 1, 10 ** 30 + 7, 12345678901234567]).map(lambda c: ("c", c)))
 
     def ext(ch):
         return st.one_of(
